@@ -161,6 +161,38 @@ package aggregation
 //@   loop 1 invariant forall k in [0, rangeindex + 1) :: slice[k] < ele
 //@   loop 1 invariant forall k in [0, len(slice)) :: slice[k] == old(slice[k])
 
+// ---- AccumulatingGroup ----
+// One sample evaluates the group expressions on a context that exposes only the sample itself
+// (no column lookup left over from the previous sample, {.} empty), then every data column once,
+// in order, with {.} bound to that column's current value.
+// Representation invariant: every group row has one value per data column.
+// (Evaluating a compiled expression reads the context and writes nothing the aggregator owns:
+// assumed, extern.)
+//@ extern rare/pkg/expressions.(*CompiledKeyBuilder).BuildKey
+//@   params (kb, context)
+//@   requires kb != nil
+//@   pure
+//@ pred wf_defs(s) := s.context != nil && s.data != nil && s.colIdxLookup != nil
+//@      && (forall i in [0, len(s.colDef)) :: s.colDef[i] != nil && s.colDef[i].expr != nil)
+//@      && (forall i in [0, len(s.groupDef)) :: s.groupDef[i] != nil && s.groupDef[i].expr != nil)
+//@ pred wf_rows(s) := forall k: str :: in_dom(s.data, k) ==> len(map_get(s.data, k)) == len(s.colDef)
+//@ func NewAccumulatingGroup
+//@   ensures wf_defs(result) && wf_rows(result) && len(result.colDef) == 0 && len(result.groupDef) == 0
+//@ func (*AccumulatingGroup).buildGroupKey
+//@   requires forall i in [0, len(s.groupDef)) :: s.groupDef[i] != nil && s.groupDef[i].expr != nil
+//@   pure
+//@   loop 1 invariant ref(rangeslice()) == ref(s.groupDef) && off(rangeslice()) == off(s.groupDef) && len(rangeslice()) == len(s.groupDef)
+//@   loop 1 invariant forall i in [0, len(s.groupDef)) :: s.groupDef[i] != nil && s.groupDef[i].expr != nil
+//@ func (*AccumulatingGroup).Sample
+//@   requires wf_defs(s) && wf_rows(s)
+//@   ensures wf_defs(s) && wf_rows(s)
+//@   assert at "groupKey := s.buildGroupKey(ctx)" : ctx.match == element && ctx.current == "" && ctx.keyLookup == nil
+//@   assert at "rowData[idx] = dataExpr.expr.BuildKey(ctx)" : ctx.current == rowData[idx] && ctx.match == element && ctx.keyLookup != nil
+//@   loop 1 invariant wf_defs(s) && wf_rows(s) && ctx == s.context && ctx.match == element && ctx.current == "" && len(rowData) == len(s.colDef) && fresh(rowData)
+//@   loop 1 invariant ref(rangeslice()) == ref(s.colDef) && off(rangeslice()) == off(s.colDef) && len(rangeslice()) == len(s.colDef)
+//@   loop 2 invariant wf_defs(s) && wf_rows(s) && ctx == s.context && ctx.match == element && ctx.keyLookup != nil && len(rowData) == len(s.colDef)
+//@   loop 2 invariant ref(rangeslice()) == ref(s.colDef) && off(rangeslice()) == off(s.colDef) && len(rangeslice()) == len(s.colDef)
+
 // ---- order statistics (nearest rank on the sorted sample list) ----
 //@ func (*StatisticalAnalysis).Median
 //@   pure
